@@ -275,6 +275,47 @@ def rkey_named_keys_are_json_strings(ctx):
     return c17.w6_runtime_key_encoding(ctx)
 
 
+def r6_builders_do_not_panic(ctx):
+    """`building never panics`: no function of core::params can panic on what the caller puts in - the only vetted
+    panic site is ParamsBuilder::build's `expect` on RawValue::from_string of bytes the builder itself produced (covered
+    by R1's rollback). An assertion on the caller's input (an empty member name is a legal JSON key) is a panic in debug
+    builds."""
+    F, R = ctx.F, ctx.R
+    n = 0
+    VETTED = {r"^jsonrpsee_core::params::params_builder::ParamsBuilder::build$": 1}
+    for b in F.real_bodies():
+        if not re.search(r"^<?jsonrpsee_core::params::", b.path) or is_test_body(b):
+            continue
+        n += 1
+        ps = [c for c in b.calls if re.search(r"^core::panicking::|^std::rt::begin_panic|::expect$|::unwrap$|assert_failed|::unwrap_unchecked$|^std::process::(abort|exit)$", c.name() or "")]
+        allowed = max([v for k, v in VETTED.items() if re.search(k, b.path)] or [0])
+        R.check(len(ps) <= allowed, "C20.R6", "%s:no-panic" % fkey(b), "%s has no panic site beyond the vetted ones (%d)" % (short(b.path), allowed), "%s can panic (%s): building parameters must report failures as errors, never panic on the caller's input" % (short(b.path), sorted({short(c.name()) for c in ps})), where(ps[-1]) if ps else None)
+    R.floor("C20.R6", n, 15, "bodies of core::params")
+
+
+def r7_transports_send_the_text_they_are_given(ctx):
+    """the text the builders produced is the text on the wire: both client transports hand the serialised message to the
+    network layer as it is - the operand of the HTTP request's body() and of the WebSocket send_text() is the transport
+    function's own `body` parameter, identity-only (a re-encoding step in between - escaping non-ASCII characters by
+    hand - can change what the server decodes although both texts are valid JSON)."""
+    F, R = ctx.F, ctx.R
+    tr = ctx.tracer(follow_callers=False, follow_fields=False, inline_calls=False)
+    n = 0
+    for pat, callpat, label in ((r"^jsonrpsee_http_client::transport::HttpTransportClient::<.*>::inner_send::\{closure#0\}$", r"http::request::Builder::body$", "HTTP"),
+                                (r"jsonrpsee_client_transport::ws::Sender<T> as jsonrpsee_core::client::TransportSenderT>::send::\{closure#0\}$", r"^soketto::(connection::)?Sender::<.*>::send_text(_owned)?$", "WebSocket")):
+        b = F.one(pat)
+        R.fn(b)
+        cs = b.calls_to(callpat)
+        if not cs:
+            raise AnchorLost("the %s transport's hand-over of the message text (%s)" % (label, callpat))
+        for c in cs:
+            n += 1
+            lv = tr.origins(b, c.args[1])
+            ok = bool(lv) and all(l.kind == "param" and l.detail.get("name") == "body" for l in lv)
+            R.check(ok, "C20.R7", "%s:sends-body-verbatim" % label, "the %s transport sends the text it was given" % label, "the %s client transport does not send the serialised message as it was given (%s): the params text produced by the builders is re-encoded on the way out, so the server can decode other values than the ones inserted" % (label, [flow.leaf_str(l)[:60] for l in lv]), where(c))
+    R.floor("C20.R7", n, 2, "hand-over sites of the client transports")
+
+
 def rmacro_rpc_params_reports_failures(ctx):
     """`an insert that fails reports an error`: the rpc_params! macro (analysed at its use sites in the corpus) inserts every
     argument once and does not continue past a failed insert - the Err arm of each ArrayParams::insert never reaches the
@@ -303,7 +344,7 @@ def rser_request_envelope_keeps_params(ctx):
     c15.r12_derived_writers_mirror_their_readers(ctx)
 
 
-LIB_RULES = [rser_request_envelope_keeps_params, rkey_named_keys_are_json_strings, r1_rollback, r2_build, r3_impls, r4_batch_builder, r5_builders_wrap_their_own_kind]
+LIB_RULES = [r7_transports_send_the_text_they_are_given, r6_builders_do_not_panic, rser_request_envelope_keeps_params, rkey_named_keys_are_json_strings, r1_rollback, r2_build, r3_impls, r4_batch_builder, r5_builders_wrap_their_own_kind]
 CONFIGS_QUICK = ["libs-all", "corpus"]
 CONFIGS_THOROUGH = ["libs-all", "facade-full", "corpus"]
 
